@@ -269,7 +269,9 @@ public:
     uint64_t const today_timestamp_ns = static_cast<uint64_t>(
       std::chrono::duration_cast<std::chrono::nanoseconds>(start_time.time_since_epoch()).count());
 
-    _clean_and_recover_files(filename, _config.open_mode(), today_timestamp_ns);
+    // the files of this sink carry the name the base class has derived (e.g. with the start date
+    // appended), not the name passed in
+    _clean_and_recover_files(this->_filename, _config.open_mode(), today_timestamp_ns);
 
     if (_config.rotation_frequency() != RotatingFileSinkConfig::RotationFrequency::Disabled)
     {
